@@ -147,8 +147,8 @@ impl Prop for C03 {
     }
     fn runs(&self, tier: Tier) -> u64 {
         match tier {
-            Tier::Quick => 300_000,
-            Tier::Thorough => 5_000_000,
+            Tier::Quick => 2_000_000,
+            Tier::Thorough => 30_000_000,
         }
     }
     fn rule(&self) -> &'static str {
@@ -390,8 +390,8 @@ impl Prop for C12 {
     }
     fn runs(&self, tier: Tier) -> u64 {
         match tier {
-            Tier::Quick => 150_000,
-            Tier::Thorough => 2_000_000,
+            Tier::Quick => 500_000,
+            Tier::Thorough => 8_000_000,
         }
     }
     fn rule(&self) -> &'static str {
